@@ -3,6 +3,7 @@ package mon
 import (
 	"bytes"
 	"fmt"
+	mh "github.com/multiformats/go-multihash"
 	"math"
 	"math/rand"
 
@@ -31,7 +32,9 @@ type cmpFn struct {
 }
 
 func c19Domain() []*entry.Entry {
-	times := []int{0, 1, 2, 7, 1 << 31, 1 << 53, 1<<53 + 1, math.MaxInt64}
+	// (2^31 / 10^10 / 2^40 / 2^62: decimal lengths 10, 11, 13 and 19 with leading digits 2, 1, 1 and 4 - numeric order
+	// and the order of the decimal texts disagree in several pairs)
+	times := []int{0, 1, 2, 7, 1 << 31, 10000000000, 1 << 40, 1 << 53, 1<<53 + 1, 1 << 62, math.MaxInt64}
 	key65 := bytes.Repeat([]byte{0x04}, 65)
 	key65[64] = 0x7f
 	ids := [][]byte{{}, {0x00}, {0x01}, {0x01, 0x00}, {0xff}, key65}
@@ -227,7 +230,7 @@ func c19Sort(run *evid.Run, es []iface.IPFSLogEntry, src string) {
 }
 
 func CheckC19(run *evid.Run) {
-	run.Rule = "axioms evaluated EXHAUSTIVELY over a synthetic domain of 144 entries = clock times {0,1,2,7,2^31,2^53,2^53+1,MaxInt64} x clock ids {empty,00,01,0100,ff,65-byte key} x 3 hashes: all 20736 ordered pairs (irreflexivity, totality, antisymmetry of the hash-tiebreak order; default = hash-tiebreak on distinct clocks; clock antisymmetry; smaller time first; first-write-wins = -last-write-wins; NoZeroes transparency) and all 2985984 ordered triples (transitivity); plus 16 entries whose identifiers are DISTINCT CIDs WITH THE SAME DIGEST (CIDv0 / v1 dag-pb / v1 raw / v1 dag-cbor) at equal clocks, all pairs and triples; Sort over all permutations of seeded sub-multisets of <=6 entries (720 permutations each, both directions, two total comparators): permutation, sortedness, determinism; plus pairs/triples/sorts drawn from real seeded histories (thorough: 10^6 triples). Non-trivial pair = entries tie on time or on (time,id); distinct = (time relation, id relation, hash relation) class, counted"
+	run.Rule = "axioms evaluated EXHAUSTIVELY over a synthetic domain of 198 entries = clock times {0,1,2,7,2^31,10^10,2^40,2^53,2^53+1,2^62,MaxInt64} x clock ids {empty,00,01,0100,ff,65-byte key} x 3 hashes: all 39204 ordered pairs (irreflexivity, totality, antisymmetry of the hash-tiebreak order; default = hash-tiebreak on distinct clocks; clock antisymmetry; smaller time first; first-write-wins = -last-write-wins; NoZeroes transparency) and all 7762392 ordered triples (transitivity); plus 16 entries whose identifiers are DISTINCT CIDs WITH THE SAME DIGEST (CIDv0 / v1 dag-pb / v1 raw / v1 dag-cbor) at equal clocks, all pairs and triples; plus 27 identifiers = 9 digests (leading bytes 00,01,19,1a,1f,20,7f,80,ff) x {CIDv0, v1 dag-pb, v1 dag-cbor} at equal clocks, all pairs and triples (a criterion that depends on the VERSIONS of the pair compared is not one order); Sort over all permutations of seeded sub-multisets of <=6 entries (720 permutations each, both directions, two total comparators): permutation, sortedness, determinism; plus pairs/triples/sorts drawn from real seeded histories (thorough: 10^6 triples). Non-trivial pair = entries tie on time or on (time,id); distinct = (time relation, id relation, hash relation) class, counted"
 	run.Assumptions = []string{"clock times are non-negative as in every entry the library creates; negative times (hostile blocks only) are outside the property's domain"}
 	dom := c19Domain()
 	n := len(dom)
@@ -256,6 +259,37 @@ func CheckC19(run *evid.Run) {
 			}
 		}
 	}
+	// identifiers of MIXED versions / codecs over several digests, equal clocks: the tie-break is one order on all of them
+	var mv []*entry.Entry
+	for _, lead := range []byte{0x00, 0x01, 0x19, 0x1a, 0x1f, 0x20, 0x7f, 0x80, 0xff} {
+		dg := bytes.Repeat([]byte{lead}, 32)
+		dg[31] = 0x5a
+		m, err := mh.Encode(dg, mh.SHA2_256)
+		if err != nil {
+			panic(err)
+		}
+		for _, c := range []cid.Cid{cid.NewCidV0(m), cid.NewCidV1(cid.DagProtobuf, m), cid.NewCidV1(cid.DagCBOR, m)} {
+			mv = append(mv, &entry.Entry{Hash: c, Clock: entry.NewLamportClock([]byte{0x01}, 3), LogID: "x", Payload: []byte("mv")})
+		}
+	}
+	for _, a := range mv {
+		for _, b := range mv {
+			c19Pair(run, a, b, "identifiers of mixed CID versions")
+			for _, c := range mv {
+				c19Triple(run, a, b, c, "identifiers of mixed CID versions")
+			}
+		}
+	}
+	{
+		var es []iface.IPFSLogEntry
+		for k := range mv {
+			es = append(es, mv[(k*7)%len(mv)])
+		}
+		c19Sort(run, es[:6], "identifiers of mixed CID versions")
+		c19Sort(run, es[6:12], "identifiers of mixed CID versions")
+	}
+	run.Count("mixed_version_identifier_pairs", len(mv)*len(mv))
+	run.NonTrivial("pair/mixed-cid-versions")
 	// clock ids that are views of ONE roomy buffer (a caller that sliced its keys out of a larger allocation):
 	// comparing must neither depend on nor write into the spare capacity
 	roomy := make([]byte, 65, 1024)
